@@ -128,11 +128,21 @@ def build_case(sw_type: str, variant: str, node_kind: str, rd: int, idur: int, d
                         services=services, applications=applications)],
         [scenarios.link(PEER, 1, DUT, 1)],
     )
+    # the restart duration of a service DECLARED in the scenario comes from the scenario's defaults block (written at the top
+    # level or inside `simulation`, by the parity of the duration), every other service gets it as the attribute
+    via_block = bool(services)
+    if via_block:
+        blk = {"service_restart_duration": rd}
+        if rd % 2:
+            cfg["simulation"]["defaults"] = blk
+        else:
+            cfg["defaults"] = blk
     game = scenarios.build(cfg)
     net = game.simulation.network
     dut, peer = net.get_node_by_hostname(DUT), net.get_node_by_hostname(PEER)
-    for sw in dut.software_manager.software.values():
-        if hasattr(sw, "restart_duration"):
+    declared = {x["type"] for x in services} if via_block else set()
+    for name, sw in dut.software_manager.software.items():
+        if hasattr(sw, "restart_duration") and name not in declared:
             sw.restart_duration = rd
         if hasattr(sw, "install_duration"):
             sw.install_duration = idur
